@@ -57,6 +57,7 @@ def run_instance(inst):
         opq.install()
     name = f"{metric} {lay} {cfg.describe()} obs={mode}"
     holder = {}
+    grid_cache = {}
 
     def scenario():
         eng = E.get_engine()
@@ -133,12 +134,18 @@ def run_instance(inst):
             cands += [(rp[:T], thr) for rp in reps for thr in (dict(max_dist=50000.0),)]
         else:
             cands = [(greal.concrete_path(model, pairs), threshold_values(model, cfg))]
+        if latlon and 'grid' in grid_cache:
+            return grid_cache['grid'] and dict(grid_cache['grid'])      # the lat-lon replay grid does not depend on the model: once per instance
+        out = None
         for cp, thr in cands:
             bad = judge([tuple(p[:2]) for p in cp], thr)
             if bad:
-                return dict(desc=bad, metric=metric, layout=lay, cfg=dict(fam=fam, T=T, ne=ne, **sym), path=[list(p[:2]) for p in cp],
-                            thresholds=thr, kind='c17')
-        return None
+                out = dict(desc=bad, metric=metric, layout=lay, cfg=dict(fam=fam, T=T, ne=ne, **sym), path=[list(p[:2]) for p in cp],
+                           thresholds=thr, kind='c17')
+                break
+        if latlon:
+            grid_cache['grid'] = out
+        return out
 
     def witness(eng, v):
         a = v['res'][0]
